@@ -7,6 +7,11 @@ From PF Require Import Opcodes Config Lex RefTable Entropy Sim Gen SrcPrims SrcD
 From PF.gen Require Import SrcDrv.
 Local Open Scope N_scope.
 
+(* derive(PartialOrd) compares by declaration order; the source declares the variants in the order of their numbers, so
+   the comparisons of SrcDrvPrims.v (on vnum) are the source's *)
+Lemma src_version_order_ok : map vnum src_version_order = [0; 1; 2; 3; 4; 5].
+Proof. reflexivity. Qed.
+
 Lemma version_ge_V4 v : version_ge v V4 = v_ge4 v.
 Proof. destruct v; reflexivity. Qed.
 
